@@ -78,7 +78,8 @@ NOLOCKS = z3.K(S, z3.IntVal(0))
 rawOf = z3.Function("rawOf", Lines, S)
 linesOfRaw = z3.Function("linesOfRaw", S, Lines)
 trusted("rawOf/linesOfRaw", "opaque text of a line file / opaque line multiset of a text file "
-        "(no property of either is assumed except linesOfRaw('') = empty)")
+        "(assumed: linesOfRaw('') = empty; rawOf(m) = '' exactly when m has no line; a non-empty "
+        "rawOf(m) ends with a newline and contains  <line>\\n  for each line of m)")
 
 
 def as_text(fstate):
@@ -128,6 +129,9 @@ ndigits = z3.Function("ndigits", S, I)  # sum(1 for ch in s if ch.isdigit())
 rm_dash = z3.Function("rm_dash", S, S)     # s.replace("-", "")
 rm_us = z3.Function("rm_us", S, S)         # s.replace("_", "")
 dash2us = z3.Function("dash2us", S, S)     # s.replace("-", "_")
+uni_normalize = z3.Function("unicodedata_normalize", S, S, S)   # no axiom: any string function
+trusted("unicodedata.normalize", "a pure function of (form, text); nothing else is assumed, so code "
+        "whose result must not depend on it is refuted")
 trusted("str.strip/isspace", "strip(s)=='' iff all characters are whitespace; strip(s)==s when s "
         "has no whitespace; a non-empty all-whitespace string has whitespace")
 trusted("str.lower/replace", "uninterpreted; only the character-homomorphism lemmas checked on "
@@ -251,6 +255,11 @@ class Axioms:
             add(z3.Not(hasws(t)))
         elif n == "dlen":
             add(t >= 1)
+        elif n == "rawOf":
+            # the text of a line file is empty exactly when it has no line, and otherwise ends with
+            # the newline of its last line
+            add((t == EMPTY) == (t.arg(0) == NOLINES))
+            add(z3.Implies(t != EMPTY, z3.SuffixOf(z3.StringVal("\n"), t)))
         elif n in PYFUN:
             v = pyeval(t)
             if v is not None:
